@@ -35,7 +35,15 @@ func DecodeEsds(hdr BoxHeader, startPos uint64, r io.Reader) (Box, error) {
 
 // DecodeEsdsSR - box-specific decode
 func DecodeEsdsSR(hdr BoxHeader, startPos uint64, sr bits.SliceReader) (Box, error) {
-	versionAndFlags := sr.ReadUint32()
+	// The descriptors are decoded with a reader of their own over the payload of the box, as DecodeEsds does:
+	// a descriptor that announces more bytes than the box holds must not be completed with the bytes after the box.
+	initPos := sr.GetPos()
+	payload := sr.ReadBytes(hdr.payloadLen())
+	if err := sr.AccError(); err != nil {
+		return nil, err
+	}
+	psr := bits.NewFixedSliceReader(payload)
+	versionAndFlags := psr.ReadUint32()
 	version := byte(versionAndFlags >> 24)
 
 	e := &EsdsBox{
@@ -44,11 +52,12 @@ func DecodeEsdsSR(hdr BoxHeader, startPos uint64, sr bits.SliceReader) (Box, err
 	}
 	descSize := uint32(hdr.Size - 12)
 	var err error
-	e.ESDescriptor, err = DecodeESDescriptor(sr, descSize)
+	e.ESDescriptor, err = DecodeESDescriptor(psr, descSize)
 	if err != nil {
 		return nil, fmt.Errorf("DecodeESDecriptor: %w", err)
 	}
-	return e, sr.AccError()
+	sr.SetPos(initPos + psr.GetPos()) // the caller's reader ends behind the ES descriptor, as before
+	return e, psr.AccError()
 }
 
 // Type - box type
